@@ -111,12 +111,17 @@ class TranscriptRows(Case):
     props = ("C11",)
     func = TRANSCRIPT + ".to_gff"
 
-    def __init__(self, n, chunk=False):
-        self.n, self.chunk = n, chunk
+    def __init__(self, n, chunk=False, cut=False):
+        self.n, self.chunk, self.cut = n, chunk, cut
         self.tier = "thorough" if (chunk and n > 1) else "quick"
         mode = "chunk-relative" if chunk else "chromosome"
         self.name = f"TranscriptInterval.to_gff[{n} exons, coding, {mode}]"
         self.call = f"list(tx.to_gff(parent='gene1', chromosome_relative_coordinates={not chunk}))"
+        if cut:
+            # chromosome-coordinate export of a transcript built on a chunk that cuts it anywhere: the rows are those
+            # of the whole-chromosome transcript (all exons, all CDS blocks, phases from the CHROMOSOME frames)
+            self.name = f"TranscriptInterval.to_gff[{n} exons, coding, chromosome coordinates, chunk cutting the transcript]"
+            self.shard_depth = 4
         self.ensures = {
             "row-count-and-types": lambda i, r: [_etype(x.type) for x in r] == ["transcript"] + ["exon"] * n + ["CDS"] * n,
             "transcript-row": lambda i, r: And(r[0].start == i.exons[0][0] + 1, r[0].end == i.exons[-1][1]),
@@ -145,7 +150,10 @@ class TranscriptRows(Case):
         cds_s, cds_e, c0, c1 = cds_in_exons(S, starts, ends)
         off = 0
         cp = None
-        if self.chunk:
+        if self.cut:
+            cp, cs, ce = chunk_parent(S)
+            S.assume(Or(*[Max(starts[k], cs) < Min(ends[k], ce) for k in range(n)]))  # some exon base on the chunk
+        elif self.chunk:
             cp, cs, ce = chunk_parent(S)
             S.assume(And(cs <= starts[0], ends[-1] <= ce))
             off = cs
@@ -163,7 +171,11 @@ class TranscriptRows(Case):
         d = sample_blocks(rng, "tx", self.n, lo=2, length=(2, 3, 5))
         d["strand"] = rng.choice(["PLUS", "MINUS"])
         sample_cds(rng, d)
-        if self.chunk:
+        if self.cut:
+            cs = rng.randint(0, d["tx_ends"][-1] - 1)
+            ce = rng.randint(cs + 1, d["tx_ends"][-1] + 3)
+            d.update(chunk_start=cs, chunk_end=ce, chunk_seq="".join(rng.choice("ACGT") for _ in range(ce - cs)))
+        elif self.chunk:
             cs = rng.randint(0, d["tx_starts"][0])
             ce = d["tx_ends"][-1] + rng.randint(0, 3)
             d.update(chunk_start=cs, chunk_end=ce, chunk_seq="".join(rng.choice("ACGT") for _ in range(ce - cs)))
@@ -382,7 +394,7 @@ class RowText(Case):
 
 CASES = [Escape(), AttributesColumn(), RowText(), TranscriptRows(1), TranscriptRows(2), TranscriptRows(1, True),
          TranscriptRows(2, True), FeatureRows(2), FeatureRows(2, True), FeatureRows(3, True),
-         GeneRowQualifiers(), CollectionRowOrder()]
+         GeneRowQualifiers(), CollectionRowOrder(), TranscriptRows(1, cut=True), TranscriptRows(2, cut=True)]
 
 CANARIES = [
     dict(name="gff: start not shifted to 1-based", props=("C11",), file="inscripta/biocantor/gene/transcript.py",
